@@ -200,4 +200,99 @@ theorem chunk_eq (m : Metadata) (minMID : Nat) (b : Bytes) :
           rfl
     rcases f with _ | _ | _ | f <;> exact tail _ _ _
 
+/-! ## the chunk loop -/
+
+def okChunks : Except DecErr (Metadata × Bytes) → Option (FFV0.Meta × Bytes)
+  | .ok (md, rest) => some (toMeta md, rest)
+  | .error _ => none
+
+/-- `chunks_eq`: `n` metadata chunks (same fuel on both sides) are accepted by the model iff by the
+    specification, and then yield the same metadata and leave the same bytes -/
+theorem chunks_eq : ∀ (fuel n : Nat) (m : Metadata) (mm : Nat) (b : Bytes),
+    okChunks (decodeChunks fuel n m mm b).2 = FFV0.chunks fuel n (toMeta m) mm b
+  | fuel, 0, m, mm, b => by simp [decodeChunks, FFV0.chunks, okChunks]
+  | 0, n + 1, m, mm, b => rfl
+  | fuel + 1, n + 1, m, mm, b => by
+    rw [chunks_succ, ← chunk_eq]
+    conv => lhs; unfold decodeChunks
+    generalize decodeMetadataChunk m mm b = r
+    rcases r with ⟨its, (e | ⟨m', mm', rest⟩)⟩
+    · rfl
+    · simp only [okChunk]
+      rw [← chunks_eq fuel n m' mm' rest]
+
+/-! ## the whole graphic -/
+
+/-- `decode_eq_spec`: for every byte string, if the specification parser accepts it with operation
+    sequence `cs` then `Decode` delivers exactly `cs` and reports no error; if the specification
+    rejects it then `Decode` reports an error. -/
+theorem decode_eq_spec (bs : Bytes) :
+    match FFV0.parse bs with
+    | some cs => Dec.decode [] bs = (cs, none)
+    | none => (Dec.decode [] bs).2 ≠ none := by
+  by_cases hm : bs.take 4 = Enc.magic
+  · obtain ⟨b, rfl⟩ : ∃ b, bs = 0x89 :: 0x49 :: 0x56 :: 0x47 :: b := ⟨bs.drop 4, take4_magic hm⟩
+    simp only [FFV0.parse]
+    rw [natural_eq]
+    rcases hn : decodeNatural b with _ | ⟨n, w, src2⟩
+    · simp only
+      have hno : ¬ ∃ hdr m src3, MetaOk {} (0x89 :: 0x49 :: 0x56 :: 0x47 :: b) hdr m src3 := by
+        rintro ⟨hdr, m, src3, n, w, src2, its, _, h2, _⟩
+        simp [hn] at h2
+      obtain ⟨e, he⟩ := decode_of_not_metaOk hno []
+      rw [he]; simp
+    · simp only
+      have hch := chunks_eq (src2.length + 1) n {} 0 src2
+      rw [toMeta_default] at hch
+      rw [← hch]
+      rcases hd : decodeChunks (src2.length + 1) n {} 0 src2 with ⟨its, (e | ⟨m, src3⟩)⟩
+      · simp only [okChunks]
+        have hno : ¬ ∃ hdr m src3, MetaOk {} (0x89 :: 0x49 :: 0x56 :: 0x47 :: b) hdr m src3 := by
+          rintro ⟨hdr, m, src3, n', w', src2', its', _, h2, h3, _⟩
+          simp [hn] at h2
+          obtain ⟨rfl, rfl, rfl⟩ := h2
+          rw [hd] at h3
+          simp at h3
+        obtain ⟨e, he⟩ := decode_of_not_metaOk hno []
+        rw [he]; simp
+      · simp only [okChunks]
+        have hM : MetaOk {} (0x89 :: 0x49 :: 0x56 :: 0x47 :: b) _ m src3 := ⟨n, w, src2, its, rfl, hn, hd, rfl⟩
+        rw [decode_of_metaOk hM []]
+        have hi := instructions_eq (src3.length + 1) .styling src3 (Nat.lt_succ_self _)
+        generalize FFV0.instructions (src3.length + 1) .styling src3 = s at hi ⊢
+        rcases s with _ | cs
+        · simp only at hi ⊢
+          exact hi
+        · simp only at hi ⊢
+          obtain ⟨h1, h2⟩ := hi
+          rw [← h2]
+          exact Prod.ext rfl h1
+  · have hp : FFV0.parse bs = none := by
+      unfold FFV0.parse
+      split
+      · exact absurd rfl hm
+      · rfl
+    rw [hp]
+    have hno : ¬ ∃ hdr m src3, MetaOk {} bs hdr m src3 := by
+      rintro ⟨hdr, m, src3, n, w, src2, its, h1, _⟩
+      exact hm h1
+    obtain ⟨e, he⟩ := decode_of_not_metaOk hno []
+    rw [he]; simp
+
+/-- `accepts_iff`: `Decode` reports no error exactly for the byte strings the specification parser
+    accepts -/
+theorem accepts_iff (bs : Bytes) : (Dec.decode [] bs).2 = none ↔ (FFV0.parse bs).isSome := by
+  have h := decode_eq_spec bs
+  rcases hp : FFV0.parse bs with _ | cs <;> rw [hp] at h <;> simp only at h
+  · simp [h]
+  · simp [h]
+
+/-- `calls_eq`: for an accepted string, `Decode` delivers exactly the specification's sequence -/
+theorem calls_eq (bs : Bytes) (cs : List (Call F32)) (hp : FFV0.parse bs = some cs) :
+    (Dec.decode [] bs).1 = cs := by
+  have h := decode_eq_spec bs
+  rw [hp] at h
+  simp only at h
+  rw [h]
+
 end Ivg.SpecL
